@@ -1,6 +1,7 @@
 import U3.Model.Lru
 import U3.Lemmas.Lru
 import U3.Gen.Collections
+import U3.Gen.Lru
 /-!
 # C17 — the pool cache is bounded, consistent, and never leaks an evicted pool
 
@@ -132,6 +133,24 @@ theorem C17_bounded_all_schedules (cap : Nat) (progs : List (List Op)) (σ : Lis
   rw [this]
   exact h5.symm
 
+/-- the outcome set computed by the driver (`outcomes` / `member`: sequential runs over `lockOrders progs`)
+is complete: whenever all threads have finished, under whatever schedule, the observable outcome
+(shared container, per-thread results, multiset of dispose calls) is the outcome of one of the
+enumerated lock orders -/
+theorem C17_outcomes_complete (cap : Nat) (progs : List (List Op)) (σ : List Nat) :
+    let cfg := exec Lru.step (Cfg.init (Lru.new cap) progs) σ
+    cfg.done = true →
+    ∃ τ ∈ lockOrders progs,
+      cfg.st = (seqRun Lru.step (Lru.new cap) progs.length (histOf progs τ)).st ∧
+      cfg.threads.map (·.results) = (seqRun Lru.step (Lru.new cap) progs.length (histOf progs τ)).results ∧
+      (cfg.log.map (·.2)).Perm (seqRun Lru.step (Lru.new cap) progs.length (histOf progs τ)).disposed := by
+  intro cfg hd
+  obtain ⟨_, _, h3, h4, _, _, _, h8⟩ := C17_linearizable cap progs σ
+  exact ⟨cfg.hist.map (·.1), lockOrder_mem Lru.step (Lru.new cap) progs σ hd, h3, h4, (h8 hd).1⟩
+
+/-- non-vacuity: two threads, three lock orders, all of them complete -/
+example : lockOrders [[Op.set 0 1, Op.get 0], [Op.del 0]] = [[1, 0, 0], [0, 1, 0], [0, 0, 1]] := by decide
+
 /-- dispose outside the lock, mutual exclusion: in every configuration reachable under every
 schedule, a thread about to call `dispose_func` does not own the lock, the lock owner is exactly the
 thread inside a locked body, and a thread inside its body has no dispose call pending.  (Model
@@ -212,6 +231,19 @@ theorem C17_manager_linearizable (cap : Nat) (progs : List (List MOp)) (σ : Lis
 theorem C17_manager_bounded (cap : Nat) (ops : List MOp) : (runM (M.new cap) ops).cache.items.length ≤ cap := by
   have := runM_bounded (M.new cap) ops (by simp [M.new, Lru.new])
   simpa [M.new, Lru.new] using this
+
+/-- a pool that is still cached is never closed: in every reachable manager state (any sequence of
+get-or-create / clear / release / finalizer runs) no cached pool id is in `closed` -/
+theorem C17_cached_never_closed (cap : Nat) (ops : List MOp) (p : PoolId) :
+    p ∈ cached (runM (M.new cap) ops) → p ∉ (runM (M.new cap) ops).closed :=
+  fun hp => (runM_inv _ ops (MInv.init cap)).cached_not_closed hp
+
+/-- source-derived premises of `U3.Mgr`: get-or-create is one section under `with self.pools.lock:`,
+the pool cache has no dispose callback (so closing is left to the pool's finalizer), and
+`HTTPConnectionPool` registers that finalizer -/
+theorem C17_manager_lock_fact :
+    Gen.pmGetOrCreateLocked = true ∧ Gen.pmPoolsNoDispose = true ∧ Gen.poolHasFinalizer = true := by
+  decide
 
 /-- an evicted / cleared pool that nothing references any more is closed by the next finalizer run -/
 theorem C17_evicted_closed_at_quiescence (m : M) (p : PoolId) (hd : p ∈ m.dropped) (hr : p ∉ m.refs) :
